@@ -15,7 +15,7 @@ META = dict(
                        'control.FileHashFromHasher', '(*FileHash).Verifier', '(*verifier).Write/Close', '(*BestChecksums).Checksums', 'SHA256/SHA512FileHash.UnmarshalControl through control.Unmarshal'],
     stubs=['md5/sha1/sha256/sha512.New: abstract hashers that record every byte written in order; Sum = H_alg(bytes), one uninterpreted function per algorithm',
            'encoding/hex Encode/Decode (arithmetic model)', 'log.Fatalf (process-exit outcome, counted as a violation)', 'reflect model'],
-    bounds={'quick': 'content of 0-3 symbolic bytes, every split into three writes/reads, with a length-and-digest checkpoint after every write; every ordered selection of 1-3 of the four algorithms (and the single-algorithm constructors) for the unsplit stream and six selections per other split; verifiers: entries from Checksums-Sha256, Checksums-Sha512, the best-checksum selector (each alone) and FileHashFromHasher for all four algorithms, content and recorded-digest preimage of 0-2 symbolic bytes (four length pairs in quick, all nine in thorough); malformed recorded hashes of 1-4 symbolic characters; recorded hash = the true digest of the content under each of the other three algorithms',
+    bounds={'quick': 'content of 0-3 symbolic bytes, every split into three writes/reads (the middle write through io.WriteString), with a length-and-digest checkpoint after every write; every ordered selection of 1-3 of the four algorithms (and the single-algorithm constructors) for the unsplit stream and six selections per other split; verifiers: entries from Checksums-Sha256, Checksums-Sha512, the best-checksum selector (each alone) and FileHashFromHasher for all four algorithms, content and recorded-digest preimage of 0-2 symbolic bytes (four length pairs in quick, all nine in thorough), the recorded hash in lower- or upper-case hex; malformed recorded hashes of 1-4 symbolic characters; recorded hash = the true digest of the content under each of the other three algorithms',
             'thorough': 'content up to 5 bytes'},
     outside_claim=['the digest functions themselves (stdlib, uninterpreted here): the claim is which bytes reach which algorithm, in which order, and how the result is compared'],
     assumptions=[])
@@ -96,7 +96,7 @@ def run_job(env, job):
         return merge_results(rs)
     if k == 'verify':
         content, other = symstr('c', job['n']), symstr('o', job['m'])
-        return run_harness(env, 'control', 'VerifC12Verify', [job['k'], content, other], [], unwind=400, timeout_ms=300000,
+        return run_harness(env, 'control', 'VerifC12Verify', [job['k'], content, other, job['k'] < 4 and job['n'] == job['m']], [], unwind=400, timeout_ms=300000,
                            sample='entry kind %d, content of %d and recorded-digest preimage of %d symbolic bytes' % (job['k'], job['n'], job['m']))
     rs = []
     for n in (1, 2, 3, 4):
